@@ -607,7 +607,9 @@ def extra_evidence(tier):
 _P = [('k0', 'int'), ('k1', 'int'), ('k2', 'int'), ('rep2', 'bool'), ('e1', 'int'), ('buf', 'bool')]
 _C = ', '.join(n for n, _ in _P)
 _NK = len(KINDS)
-_B = '0 <= k0 < %d and 0 <= k1 < %d and 0 <= k2 < %d and 0 <= e1 <= 3' % (_NK, _NK, _NK)
+# e1 selects the exception class raised by t1's error kinds: ValueError, KeyError, Boom (index 2, an AssertionError subclass, is excluded -
+# unittest files it under failures, the kind would no longer be an 'error')
+_B = '0 <= k0 < %d and 0 <= k1 < %d and 0 <= k2 < %d and 0 <= e1 <= 3 and e1 != 2' % (_NK, _NK, _NK)
 
 
 def _v(**kw):
